@@ -2,7 +2,7 @@
 from common import TB_COMMON
 
 PROP = {
-    "lean_modules": ["CapyV.Props.C04"],
+    "lean_modules": ["CapyV.Props.C04", "CapyV.Props.C04Widen"],
     "level": "proof",
     "needs_cli": True,
     "trusted_base": TB_COMMON + [
